@@ -11,12 +11,25 @@
   OBLIGATION c05_fault_at_nullable_is_local
   OBLIGATION c05_errors_violated_by_resolverErrPropagates
   OBLIGATION c05_errors_repaired_on_witness
-  OPEN c05_errors_static
+  OBLIGATION c05_errors_static_unqualified_false
+  OBLIGATION c05_errors_static
+  OBLIGATION c05_errors_all_schedules
+  OBLIGATION c05_errors_static_example
+
+  `c05_errors_static` as first written (failing resolvers at nullable fields + data present under the
+  all-at-once schedule) is REFUTED (`c05_errors_static_unqualified_false`: a null in a non-null
+  position reaches a join and is captured above it).  Proved instead, under the name
+  `c05_errors_static`: the schedule-free condition `StaticOK` (well-typed world over a closed set of
+  object identities, failures at nullable fields only, enough fuel) implies that no error reaches a
+  join under ANY gate function, for both executors and every defect setting with
+  `resolverErrPropagates` off; `c05_errors_all_schedules` is the resulting order-independence of the
+  error multiset.  (Lemmas: AGV/Lemmas/SchedClean.lean.)
 -/
 import AGV.Lemmas.Sched
+import AGV.Lemmas.SchedClean
 
 namespace AGV.Props.C05
-open AGV.Core AGV.Model AGV.Model.Sched AGV.Lemmas.Sched
+open AGV.Core AGV.Model AGV.Model.Sched AGV.Lemmas.Sched AGV.Lemmas.SchedClean
 open AGV.Spec.Exec (FieldOcc selectOp)
 
 /-- Core statement, for both executors (`ns = false`: derive-built schemas, nested selection sets
@@ -66,15 +79,40 @@ theorem c05_fault_at_nullable_is_local (c : ExecStatic.Ctx) (hD : c.D.resolverEr
     (completeFieldT c rec fd (.fail m) occ fpath s).up = none := by
   simp [completeFieldT, hD, hn]
 
-/-- OPEN: the static form of the hypothesis of `c05_errors` — for a world whose values fit the
-    declared types and whose failing resolvers sit at nullable fields only, no error reaches a
-    join in the repaired model.  (Needs a well-typedness predicate for worlds; the per-case
-    check evaluates `prop`-freeness implicitly by comparing all schedules.) -/
-def c05_errors_static : Prop :=
+/-- The static form of the hypothesis of `c05_errors` AS FIRST WRITTEN: failing resolvers sit at
+    nullable fields only and the all-at-once schedule delivers data.  FALSE
+    (`c05_errors_static_unqualified_false` at the end of this file): data being present does not
+    exclude an error that reached a join below a nullable position.  The corrected statement is
+    `c05_errors_static`. -/
+def c05_errors_static_unqualified : Prop :=
   ∀ (S : Schema) (d : Doc) (opName : Option String) (raw : List (String × GValue)) (w : World) (σ : Gate) (fuel : Nat),
     (∀ e ∈ w.entries, (∃ m, e.2 = .fail m) → ∀ t ∈ S.types, ∀ f ∈ t.fields, f.name = e.1.2 → f.ty.isNonNull = false) →
     (run ExecStatic.Defects.none false (fun _ _ _ => 0) S d opName raw w fuel).val.isSome = true →
     (run ExecStatic.Defects.none false σ S d opName raw w fuel).prop = false
+
+/-- STATIC CONDITION ⇒ NO ERROR REACHES A JOIN, under every schedule.  `StaticOK` mentions no gate
+    function: there is a set `I` of object identities containing the root value such that the world
+    maps every field of every member to a WELL-TYPED value (`wt`: a resolver failure only where the
+    declared type is nullable; no null, ill-typed leaf, non-list or inadmissible runtime type in a
+    non-null position; every list item delivered; object identities in `I` again — anything goes AT a
+    nullable named position: that fault is captured there), and the fuel covers the document
+    (`deepT`).  Then, with `resolverErrPropagates` off (any other defect toggle, derive-built or
+    dynamic executor, one future per occurrence or per key), for EVERY gate function no error reaches
+    a selection set or a list — so `c05_errors` applies (`c05_errors_all_schedules`).
+    Lifts `c05_fault_at_nullable_is_local` by induction over the execution
+    (`resolveContainerT_clean`); `closedB` is a decidable form of the world condition. -/
+theorem c05_errors_static (ns : Bool) (D : ExecStatic.Defects) (hD : D.resolverErrPropagates = false) (perOcc : Bool)
+    (σ : Gate) (S : Schema) (d : Doc) (opName : Option String) (raw : List (String × GValue)) (w : World) (fuel : Nat)
+    (H : ∀ op, selectOp d opName = some op → StaticOK D perOcc S d op raw w fuel) :
+    (runWith ns D perOcc σ S d opName raw w fuel).prop = false :=
+  runWith_clean ns D hD perOcc σ S d opName raw w fuel H
+
+/-- … hence the multiset of errors is the same under any two schedules -/
+theorem c05_errors_all_schedules (ns : Bool) (D : ExecStatic.Defects) (hD : D.resolverErrPropagates = false) (perOcc : Bool)
+    (σ τ : Gate) (S : Schema) (d : Doc) (opName : Option String) (raw : List (String × GValue)) (w : World) (fuel : Nat)
+    (H : ∀ op, selectOp d opName = some op → StaticOK D perOcc S d op raw w fuel) :
+    ((runWith ns D perOcc σ S d opName raw w fuel).errors).Perm ((runWith ns D perOcc τ S d opName raw w fuel).errors) :=
+  (c05_errors ns D perOcc σ τ S d opName raw w fuel (c05_errors_static ns D hD perOcc σ S d opName raw w fuel H)).2
 
 -- ------------------------------------------------------------------ witness (also corpus/C05)
 
@@ -111,5 +149,76 @@ theorem c05_errors_repaired_on_witness :
     (run ExecStatic.Defects.none false sched2 S0 doc0 none [] w0 10).errors = [⟨[.key "x", .key "b"], pB⟩, ⟨[.key "x", .key "a"], pA⟩] ∧
     (run ExecStatic.Defects.none false sched1 S0 doc0 none [] w0 10).prop = false := by
   refine ⟨by rfl, by rfl, by rfl⟩
+
+-- ------------------------------------------------------------------ the static condition: counterexample, instance
+
+def S2 : Schema := { query := "Query", types := [
+  { name := "Query", kind := .object, fields := [{ name := "x", ty := .named "O", args := [] }] },
+  { name := "O", kind := .object, fields := [{ name := "a", ty := .nonNull (.named "Int"), args := [] }] },
+  { name := "Int", kind := .scalar }] }
+/-- object 1 has no value for `a: Int!` -/
+def w2 : World := { entries := [((0, "x"), .obj "O" 1)] }
+/-- `{ x { a } }` -/
+def doc2 : Doc := { ops := [{ ty := .query, name := none, vars := [], dirs := [], sels :=
+  [Sel.field none "x" [] [] [Sel.field none "a" [] [] [] pA] pX] }], frags := [] }
+
+/-- `c05_errors_static` as first written is FALSE: no resolver fails at all and the response has data
+    (`{"x": null}`), but the null in `a: Int!` is an error that reaches the selection set of `x`
+    (a join, where siblings could be cancelled) before it is captured at the nullable `x`. -/
+theorem c05_errors_static_unqualified_false : ¬ c05_errors_static_unqualified := by
+  intro h
+  have h1 := h S2 doc2 none [] w2 sched1 10
+    (by
+      intro e he hm
+      simp only [w2, List.mem_singleton] at he
+      subst he
+      obtain ⟨m, hm⟩ := hm
+      cases hm)
+    (by rfl)
+  have h2 : (run ExecStatic.Defects.none false sched1 S2 doc2 none [] w2 10).prop = true := by rfl
+  rw [h2] at h1
+  cases h1
+
+def S3 : Schema := { query := "Query", types := [
+  { name := "Query", kind := .object, fields := [
+      { name := "x", ty := .named "O", args := [] },
+      { name := "xs", ty := .nonNull (.list (.nonNull (.named "O"))), args := [] },
+      { name := "n", ty := .named "Int", args := [] }] },
+  { name := "O", kind := .object, fields := [{ name := "a", ty := .named "Int", args := [] },
+                                             { name := "b", ty := .nonNull (.named "Int"), args := [] }] },
+  { name := "Int", kind := .scalar }] }
+/-- two failing nullable resolvers (objects 1 and 2), an ill-typed leaf at the nullable `n`,
+    well-typed values in the non-null positions `xs`, its items and `b` -/
+def w3 : World := { entries := [
+  ((0, "x"), .obj "O" 1), ((0, "xs"), .list [.obj "O" 1, .obj "O" 2]), ((0, "n"), .leaf (.str "bad")),
+  ((1, "a"), .fail "boom"), ((1, "b"), .leaf (.int 1)), ((2, "a"), .fail "boom"), ((2, "b"), .leaf (.int 2))] }
+/-- `{ x { a b } xs { a b } n }` -/
+def op3 : OpDef := { ty := .query, name := none, vars := [], dirs := [], sels := [
+  Sel.field none "x" [] [] [Sel.field none "a" [] [] [] pA, Sel.field none "b" [] [] [] pB] pX,
+  Sel.field none "xs" [] [] [Sel.field none "a" [] [] [] pA, Sel.field none "b" [] [] [] pB] pX,
+  Sel.field none "n" [] [] [] pX] }
+def doc3 : Doc := { ops := [op3], frags := [] }
+def ids3 : List (String × Nat) := [("Query", 0), ("O", 1), ("O", 2)]
+
+/-- the static condition holds for `doc3` in `w3` (decided, no schedule involved) … -/
+theorem c05_errors_static_example :
+    ∀ op, selectOp doc3 none = some op → StaticOK ExecStatic.Defects.none false S3 doc3 op [] w3 10 := by
+  intro op hop
+  have : op = op3 := by simpa [selectOp, doc3] using hop.symm
+  subst this
+  exact ⟨fun ty id => ids3.contains (ty, id), by decide, closed_of_closedB _ ids3 (by decide), by decide⟩
+
+/-- … so under EVERY schedule no error reaches a join and the four errors are reported, in some order -/
+example (σ : Gate) : (run ExecStatic.Defects.none false σ S3 doc3 none [] w3 10).prop = false :=
+  c05_errors_static false _ rfl false σ S3 doc3 none [] w3 10 c05_errors_static_example
+
+example (σ : Gate) : ((run ExecStatic.Defects.none false σ S3 doc3 none [] w3 10).errors).Perm
+    [⟨[.key "n"], pX⟩, ⟨[.key "x", .key "a"], pA⟩, ⟨[.key "xs", .idx 0, .key "a"], pA⟩, ⟨[.key "xs", .idx 1, .key "a"], pA⟩] := by
+  have h := c05_errors_all_schedules false _ rfl false σ sched1 S3 doc3 none [] w3 10 c05_errors_static_example
+  refine h.trans ?_
+  have : (runWith false ExecStatic.Defects.none false sched1 S3 doc3 none [] w3 10).errors =
+      [⟨[.key "x", .key "a"], pA⟩, ⟨[.key "xs", .idx 0, .key "a"], pA⟩, ⟨[.key "xs", .idx 1, .key "a"], pA⟩, ⟨[.key "n"], pX⟩] := by rfl
+  rw [this]
+  exact (List.perm_append_comm (l₁ := [_, _, _]) (l₂ := [_]))
 
 end AGV.Props.C05
